@@ -69,6 +69,14 @@ func insertedPayload(kind int) []byte {
 		return []byte{4, 0, 0, 0, 0, 2, 'h', 'i', 0, 0, 0, 0}
 	case 3: // SSH_MSG_UNIMPLEMENTED: uint32 sequence number
 		return []byte{3, 0, 0, 0, 0}
+	case 7: // SSH_MSG_EXT_INFO with no extensions
+		return []byte{7, 0, 0, 0, 0}
+	case 5: // SSH_MSG_SERVICE_REQUEST
+		return append([]byte{5, 0, 0, 0, 12}, []byte("ssh-userauth")...)
+	case 80: // SSH_MSG_GLOBAL_REQUEST "x", want-reply false
+		return []byte{80, 0, 0, 0, 1, 'x', 0}
+	case 21:
+		return []byte{21}
 	default:
 		return []byte{byte(kind), 1, 2, 3}
 	}
